@@ -340,7 +340,10 @@ def run_preprocess(args):
     except tskit.FileFormatError as ffe:
         error_exit(f"FileFormatError loading '{args.tree_sequence}: {ffe}")
     snipped_ts = tsdate.preprocess_ts(
-        ts, minimum_gap=args.minimum_gap, erase_flanks=args.erase_flanks
+        ts,
+        minimum_gap=args.minimum_gap,
+        erase_flanks=args.erase_flanks,
+        split_disjoint=args.split_disjoint,
     )
     snipped_ts.dump(args.output)
 
